@@ -623,11 +623,24 @@ fn gen_eval_expr(rng: &mut Rng, env: &[(&'static str, Tv)], out: &mut Out) -> Op
     Some(e)
 }
 
-fn gen_eval(rng: &mut Rng, n: u64, out: &mut Out, req: &mut Vec<String>) {
+const FIXED: &[&str] = &[
+    "bm_v[{1,*}]", "bm_v[{*,2,3}]", "bm_v[{1,2}]", "bm_v[{2,*}]", "bm_t[{1,*}]", "bm_t[{*,3}]", "bm_t[{2,3}]", "bm_t[{*,*}]", "bm_k[{a: 1, b: *}]", "bm_k[{b: true, a: *}]",
+    "bm_k[{a: 2, b: true}]", "bm_k[{a: 2}]", "bm_k[{1, true}]", "hm_t[{3,*}]", "hm_t[{1,2}]", "hm_i[-3]", "hm_i[4]", "set_a[{1,*}]", "set_a[{1,3}]", "set_a[{3,1}]", "bm_set[{{4,4}}]",
+    "bm_set[{{*,*}}]", "bm_set[{*}]", "bm_o[Some({*})]", "bm_o[Some({5})]", "bm_o[None]", "bm_o[Some]", "bm_e[Blue]", "bm_e[Green]", "arr2[1][0..2]", "arr2[1][2]", "vecs[0][1]", "vecs[2][0]",
+    "deque[1..3]", "deque[0]", "hm_s.alpha", "hm_s.gamma", "hm_s.alph", "hm_s.a", "hm_s.g", "bm_s.a", "bm_s.ab", "outer.i", "outer.inne", "hm_s[\"g g\"]", "bm_s.b.x", "bm_c[\"z\"]", "bm_c['a']", "bm_b[true]", "bm_i[200]", "bm_i[200][1]", "bm_i[3]", "(*rc).value.x", "(*arc).data",
+    "*boxed", "(*boxed).y", "(*sref).inner.y", "sref.id", "outer.tup.__1", "outer.arr[0]", "*outer.pin", "pint[1..3]", "pint[..2]", "pint[1..]", "**pp", "(~s).vec[0]", "(~st).length", "*(~st).data_ptr",
+    "shape1.__0", "shape2.w", "shape3.__0", "opt.__0", "none.__0", "hs_i[-6]", "hs_i[8]", "bs_i[3]", "bs_s[\"yy\"]", "bs_s[\"y\"]", "tup.__2", "tup.0", "arr[-1]", "arr[5]", "arr[4]", "vec1[3]",
+    "vec1[..2]", "vec1[2..]", "vec1[..]", "vec1[4..4]", "arr[1..4][1..2]", "arr[1..4][0]", "(~vec1).len", "(~deque).len", "(~bm_i).length", "~arr", "~~vec1", "&arr[2]", "*&arr[2]", "*&outer.inner",
+    "&&arr", "*flag", "flag[0]", "flag.x", "unit[..]", "color.x", "color[Green]", "fl[0]", "ch.c", "st[0]", "s.vec", "bm_w[7]", "bm_u[3]", "bm_u[18446744073709551615]",
+];
+
+fn gen_eval(rng: &mut Rng, n: u64, first: bool, out: &mut Out, req: &mut Vec<String>) {
     let env = truth();
     req.push("C07 new eval".into());
     for (name, v) in &env { req.push(format!("C07 var {name} {}", ship(v))); }
-    for (name, _) in &env { req.push(format!("C07 eval {}", enc_str(name))); }
+    // a fixed boundary set, executed on every run: every container kind with exact, wildcard and non-matching literals
+    if first { for (name, _) in &env { req.push(format!("C07 eval {}", enc_str(name))); } }
+    if first { for t in FIXED { out.count("eval.fixed", 1); req.push(format!("C07 eval {}", enc_str(t))); } }
     for _ in 0..n {
         if let Some(e) = gen_eval_expr(rng, &env, out) {
             let mut r2 = rng.fork();
@@ -781,7 +794,8 @@ pub fn gen_requests(rng: &mut Rng, n: u64, out: &mut Out) -> Vec<String> {
     let total = (n / 5).clamp(60, 4000);
     let per = 160;
     let mut left = total;
-    while left > 0 { let k = left.min(per); gen_eval(&mut r2, k, out, &mut req); left -= k; }
+    let mut first = true;
+    while left > 0 { let k = left.min(per); gen_eval(&mut r2, k, first, out, &mut req); first = false; left -= k; }
     req
 }
 
